@@ -258,6 +258,8 @@ class Fn:
             return "true" if e[1] else "false"
         if k == "path":
             return self.path(e[1], env)
+        if k == "try" and self.spec.get("try_transparent"):
+            return self.ex(e[1], env)
         if k == "str":
             lit = self.spec.get("strings", {}).get(e[1])
             if lit is None:
@@ -448,6 +450,12 @@ class Fn:
             else:
                 other = self.tail(els, env, ctx)
             return "if %s then %s else %s" % (self.ex(e[1], env), paren(self.tail(e[2], env, ctx)), paren(other))
+        if k == "iflet" and self.spec.get("opens") and e[1][0] == "ppath" and e[1][1][-1] == "Ok" and e[1][2] and e[1][2][0][0] == "pbind" \
+                and e[2][0] == "call" and e[2][1][0] == "path" and "::".join(e[2][1][1]) in self.spec["opens"] and e[4] is None:
+            # `if let Ok(h) = File::open(p) { .. }`: the handle is bound to p and the body translated as if the open succeeded
+            # (a failed open skips the body in the source; the model's step list has the body's calls unconditionally)
+            self.handles[e[1][2][0][1]] = self.ex(e[2][2][0], env)
+            return self.tail(e[3], dict(env, **{e[1][2][0][1]: "File"}), ctx)
         if k == "iflet":
             t = self.ty(e[2], env)
             ps, add = self.pat(e[1], env, t)
@@ -698,7 +706,7 @@ class Fn:
                 ps, add = self.pat(pat, env, st)
                 other = self.block(els, env, Ctx(val=None, ret=ctx.ret, fall=None, cont=ctx.cont))
                 return "match %s with %s => %s | _ => %s end" % (self.ex(e, env), ps, after(dict(env, **add)), other)
-            if pat[0] == "pbind" and e[0] == "try":
+            if pat[0] == "pbind" and e[0] == "try" and not self.spec.get("try_transparent"):
                 # `let x = e?;` in a function returning Option: None propagates
                 inner = e[1]
                 it = self.ty(inner, env)
@@ -1069,6 +1077,20 @@ def functions():
         return translate_fn(src, "deliver_pull", None, spec, "g_deliver_pull", "(host remote_file : list Z) (local_dest : opath) (mtime : option Z)", "list osys")
     out.append(("deliver_pull", "src/bin/copia/incremental.rs deliver_pull", None, t_deliver_pull))
 
+    def t_archive_save():
+        src = read("src/bin/copia/archive.rs")
+        spec = dict(signature=[("self", "Self"), ("path", "Path")], try_transparent=True,
+                    calls={".parent": ("a_parent {0}", "Option<Path>"), "PathBuf::from": ("{0}", "Path"), ".exists": ("path_exists {0}", "bool"),
+                           "serde_json::to_vec_pretty": ("tt (* {0} *)", "Vec<u8>")},
+                    opens={"std::fs::File::create": "ACreate {0}", "std::fs::File::open": ""},
+                    effects={"std::fs::create_dir_all": "AMkdirAll {0}", "std::fs::rename": "ARename {0} {1}",
+                             "<handle>.write_all": "AWrite {0}", "<handle>.sync_all": "AFsync {0}"},
+                    updates={"s.push": "a_with_suffix {0} {1}", "bak.push": "a_with_suffix {0} {1}"},
+                    strings={".tmp": "ASufTmp", ".bak": "ASufBak"}, rename={"self": "self_"},
+                    ok=lambda s_: "effs", prologue="let effs := [] in ")
+        return translate_fn(src, "save", "Archive", spec, "g_archive_save", "(path : apath)", "list asys", self_type="Archive")
+    out.append(("archive_save", "src/bin/copia/archive.rs Archive::save", None, t_archive_save))
+
     def t_cas():
         src = read("src/bin/copia/wire.rs")
         check_enum(src, "Cas", ["Commit", "Conflict"])
@@ -1184,6 +1206,7 @@ GROUPS = {
     "Cas": ("", True, ["cas_decide"]),
     "BisyncApply": ("", "bisync", ["apply"]),
     "BisyncSys": ("", "bisyncsys", ["copy_atomic"]),
+    "ArchiveSave": ("Model.ArchiveSys", "archivesys", ["archive_save"]),
     "OneWaySys": ("Model.OneWaySys", "onewaysys", ["tmp_path", "deliver_local", "deliver_pull"]),
     "Archive": ("Model.Archive", "archive", ["archive_load"]),
     "Plan": ("Model.Glob Model.Plan", False, ["needs_transfer", "glob_match", "is_excluded", "build_plan"]),
@@ -1225,7 +1248,9 @@ def main():
         body = HEADER % (group, imports)
         if group == "Cas":
             body += "\nInductive g_cas := GCommit | GConflict.\n"
-        if digest == "onewaysys":
+        if digest == "archivesys":
+            body = (HEADER % (group, imports)) + "\nSection WithFs.\nVariable path_exists : apath -> bool.   (* path.exists() *)\n\n" + "\n".join(texts) + "End WithFs.\n"
+        elif digest == "onewaysys":
             body = (HEADER % (group, imports)) + "\nSection WithPaths.\nContext {K : Type}.\nNotation opath := (@opath K).\nNotation osys := (@osys K).\n\n" + "\n".join(texts) + "End WithPaths.\n"
         elif digest == "bisyncsys":
             body = ("(** GENERATED by tools/gen_logic.py from /repo's CURRENT source - do not edit.\n    bidir.rs `copy_atomic` as the list of file-system calls it makes, in order; Proofs/TieBisyncSys.v maps them onto\n"
